@@ -84,10 +84,24 @@ pub struct FabricKit {
 }
 
 pub fn make_fabric(node_ids: &[u64]) -> FabricKit {
-    let crypto = test_only_crypto();
+    make_fabric_ex(&test_only_crypto(), node_ids, 1, [0x44; 16])
+}
+
+/// CASE authenticated tags in the NOC of a node (by node id): node 0x1001 carries two
+pub fn cats_of(node_id: u64) -> Vec<u32> {
+    if node_id == 0x1001 {
+        vec![0x0001_0001, 0x0002_0003]
+    } else {
+        vec![]
+    }
+}
+
+/// `crypto`: every instance of the test crypto produces the same "random" key sequence - fabrics that must have different
+/// roots have to be made from ONE instance.
+pub fn make_fabric_ex<C: Crypto>(crypto: C, node_ids: &[u64], fabric_id: u64, ipk: [u8; 16]) -> FabricKit {
     let mut rcac_buf = [0u8; MAX_CERT_TLV_AND_ASN1_LEN];
     let mut rcac_gen = RcacGenerator::new(&mut rcac_buf);
-    let (rcac_priv, rcac) = rcac_gen.generate(&crypto, 1, VALID_FOREVER).unwrap();
+    let (rcac_priv, rcac) = rcac_gen.generate(&crypto, fabric_id, VALID_FOREVER).unwrap();
     let rcac_v = rcac.to_vec();
     let mut noc_buf = [0u8; MAX_CERT_TLV_AND_ASN1_LEN];
     let mut noc_gen = NocGenerator::create(rcac_priv.reference(), &rcac_v, &[], &mut noc_buf).unwrap();
@@ -98,10 +112,10 @@ pub fn make_fabric(node_ids: &[u64]) -> FabricKit {
         let csr = sk.csr(&mut csr_buf).unwrap();
         let mut canon = CanonPkcSecretKey::new();
         sk.write_canon(&mut canon).unwrap();
-        let noc = noc_gen.generate(&crypto, csr, *id, &[], VALID_FOREVER).unwrap().to_vec();
+        let noc = noc_gen.generate(&crypto, csr, *id, &cats_of(*id), VALID_FOREVER).unwrap().to_vec();
         nodes.push((*id, canon, noc));
     }
-    FabricKit { rcac: rcac_v, ipk: [0x44; 16], nodes }
+    FabricKit { rcac: rcac_v, ipk, nodes }
 }
 
 pub fn install_fabric(m: &Matter<'_>, kit: &FabricKit, which: usize) -> NonZeroU8 {
@@ -126,6 +140,8 @@ pub struct Filter {
     pub cut: Option<usize>,
     /// garble the n-th (1-based) handshake message in the given direction (true = initiator -> device), every copy alike
     pub garble: Option<(bool, usize)>,
+    /// where to flip: offset into the protocol payload (None = third byte from the end of the datagram) and the xor mask
+    pub garble_at: Option<(usize, u8)>,
     /// hold the n-th handshake message in the given direction (every copy) until `ms` after its first appearance
     pub hold: Option<(bool, usize, u64)>,
     pub hold_until: Option<u64>,
@@ -161,6 +177,11 @@ pub struct Scenario<'v> {
     /// of the busy ones, how many are expired sessions (their peer stopped acknowledging) that still carry a live exchange
     pub fill_expired: usize,
     pub with_fabric: bool,
+    /// initiator 3 (and the device) are additionally / instead members of a second fabric; initiator 2 belongs to a
+    /// fabric the device does not know; initiator 2 has the right certificates but a wrong IPK
+    pub second_fabric: bool,
+    pub foreign2: bool,
+    pub wrong_ipk2: bool,
 }
 
 /// Runs one scenario; every observable goes to `tr`.  Returns how the run ended.
@@ -176,10 +197,24 @@ pub fn run_scenario(sc: &Scenario<'_>, tr: &mut Trace) -> End {
     ];
     let mut fab_idx = [None; 3];
     if sc.with_fabric || sc.fill_busy + sc.fill_idle > 0 {
-        let kit = make_fabric(&[DEV_NODE, 0x1001, 0x1002, 0x1003]);
+        let kit = make_fabric_ex(&crypto, &[DEV_NODE, 0x1001, 0x1002, 0x1003], 1, [0x44; 16]);
         install_fabric(&dev, &kit, 0);
         for (i, m) in inis.iter().enumerate() {
-            fab_idx[i] = Some(install_fabric(m, &kit, i + 1));
+            if i == 1 && sc.foreign2 {
+                // a complete fabric of its own, with a device certificate for the same node id - but not the device's root
+                let other = make_fabric_ex(&crypto, &[DEV_NODE, 0x1002], 1, [0x44; 16]);
+                fab_idx[i] = Some(install_fabric(m, &other, 1));
+            } else if i == 1 && sc.wrong_ipk2 {
+                let mut k2 = FabricKit { rcac: kit.rcac.clone(), ipk: [0x45; 16], nodes: Vec::new() };
+                k2.nodes.push((kit.nodes[2].0, { let mut c = CanonPkcSecretKey::new(); c.load(kit.nodes[2].1.reference()); c }, kit.nodes[2].2.clone()));
+                fab_idx[i] = Some(install_fabric(m, &k2, 0));
+            } else if i == 2 && sc.second_fabric {
+                let kit2 = make_fabric_ex(&crypto, &[DEV_NODE + 7, 0x1003], 2, [0x55; 16]);
+                install_fabric(&dev, &kit2, 0);
+                fab_idx[i] = Some(install_fabric(m, &kit2, 1));
+            } else {
+                fab_idx[i] = Some(install_fabric(m, &kit, i + 1));
+            }
         }
     }
     // fillers: planted secure sessions towards a node that does not exist (index 3 + ...), some holding a live exchange
@@ -276,7 +311,20 @@ pub fn run_scenario(sc: &Scenario<'_>, tr: &mut Trace) -> End {
                 *last_code.borrow_mut() = r.as_ref().err().map(|e| format!("{:?}", e.code())).unwrap_or_default();
                 running.set(false);
                 filters.borrow_mut().active = false;
-                ev(json!({"ev": "IniEnd", "i": i + 1, "tag": tag, "probe": is_probe, "ok": r.is_ok(), "code": r.err().map(|e| format!("{:?}", e.code())).unwrap_or_default()}));
+                // the initiator's own secure sessions (towards the device) after the attempt
+                let mine: Vec<Value> = m.with_state(|st| st.verif_snapshot().sessions.sessions.iter().filter(|x| x.mode == 1 || x.mode == 2).map(|x| {
+                    json!({"id": x.id, "mode": mode_name(x.mode), "peer_node": x.peer_nodeid, "fab": x.fab_idx, "local_sid": x.local_sess_id, "peer_sid": x.peer_sess_id,
+                           "enc_fp": x.enc_key_fp.to_string(), "dec_fp": x.dec_key_fp.to_string(), "cats": x.cat_ids.to_vec()})
+                }).collect());
+                let newest = mine.iter().max_by_key(|x| x["id"].as_u64().unwrap_or(0)).cloned();
+                if let (true, Some(nw)) = (r.is_ok(), newest) {
+                    let mut e = nw.clone();
+                    e["ev"] = json!("IniSess");
+                    e["i"] = json!(i + 1);
+                    e["tag"] = json!(tag);
+                    ev(e);
+                }
+                ev(json!({"ev": "IniEnd", "i": i + 1, "tag": tag, "probe": is_probe, "n_sessions": mine.len(), "ok": r.is_ok(), "code": r.err().map(|e| format!("{:?}", e.code())).unwrap_or_default()}));
             }
             #[allow(unreachable_code)]
             ()
@@ -306,6 +354,7 @@ pub fn run_scenario(sc: &Scenario<'_>, tr: &mut Trace) -> End {
     let mut prev_state = String::new();
     let mut wait_until: Option<u64> = None;
     let mut settle_deadline: Option<u64> = None;
+    let dev_node_for = |i: usize| if i == 3 && sc.second_fabric { DEV_NODE + 7 } else { DEV_NODE };
     let mut tagc = 0u32;
     let mut step_tries = 0usize;
     let mut probe: Option<(usize, usize, u64, usize, usize)> = None;
@@ -326,7 +375,7 @@ pub fn run_scenario(sc: &Scenario<'_>, tr: &mut Trace) -> End {
                 if let Some(p) = &t.proto {
                     if !t.encrypted && p.proto_id == 0 {
                         let status = if p.opcode == 0x40 && p.payload.len() >= 8 { Some((u16::from_le_bytes([p.payload[0], p.payload[1]]), u16::from_le_bytes([p.payload[6], p.payload[7]]))) } else { None };
-                        out.push(json!({"ev": "Hs", "src": d.src, "dst": d.dst, "opcode": p.opcode, "ctr": t.ctr, "exch": p.exch_id, "bytes": t.bytes_id, "rel": p.reliable,
+                        out.push(json!({"ev": "Hs", "src": d.src, "dst": d.dst, "opcode": p.opcode, "ctr": t.ctr, "exch": p.exch_id, "bytes": t.bytes_id, "plen": p.payload.len(), "rel": p.reliable,
                                         "general": status.map(|s| s.0), "code": status.map(|s| s.1), "t": t.t_ms, "seq": d.seq}));
                     }
                 }
@@ -344,7 +393,7 @@ pub fn run_scenario(sc: &Scenario<'_>, tr: &mut Trace) -> End {
                 };
                 if fresh {
                     out.push(json!({"ev": "DevSess", "what": "added", "id": s.id, "mode": mode_name(s.mode), "reserved": s.reserved, "i": s.peer_addr_port as i64 - 5540,
-                                    "peer_node": s.peer_nodeid, "fab": s.fab_idx, "local_sid": s.local_sess_id, "peer_sid": s.peer_sess_id,
+                                    "peer_node": s.peer_nodeid, "fab": s.fab_idx, "local_sid": s.local_sess_id, "peer_sid": s.peer_sess_id, "cats": s.cat_ids.to_vec(),
                                     "enc_fp": s.enc_key_fp.to_string(), "dec_fp": s.dec_key_fp.to_string(), "seq": sim::next_seq(), "t": sim::now_ms()}));
                 }
             }
@@ -409,8 +458,7 @@ pub fn run_scenario(sc: &Scenario<'_>, tr: &mut Trace) -> End {
                                 let mut data = d.data.clone();
                                 if let Some((true, n)) = f.garble {
                                     if n == nth {
-                                        let k = data.len();
-                                        data[k - 3] ^= 0x41;
+                                        flip(&mut data, t.proto.as_ref().map(|p| p.payload.len()).unwrap_or(0), f.garble_at);
                                     }
                                 }
                                 if !f.parked_ctrs.contains(&t.ctr) {
@@ -437,8 +485,7 @@ pub fn run_scenario(sc: &Scenario<'_>, tr: &mut Trace) -> End {
                             if let Some((to_dev, n)) = f.garble {
                                 if to_dev == (d.src != 0) && n == nth {
                                     let mut data = d.data.clone();
-                                    let k = data.len();
-                                    data[k - 3] ^= 0x41;
+                                    flip(&mut data, t.proto.as_ref().map(|p| p.payload.len()).unwrap_or(0), f.garble_at);
                                     net.borrow_mut().wire.pop_front();
                                     return Step::Inject { src: d.src, dst: d.dst, data };
                                 }
@@ -522,16 +569,20 @@ pub fn run_scenario(sc: &Scenario<'_>, tr: &mut Trace) -> End {
                 let i = op["i"].as_u64().unwrap() as usize;
                 tagc += 1;
                 let pass_ok = op["pass"].as_str().map(|p| p == "ok").unwrap_or(true);
-                let garble = op["garble"].as_array().filter(|g| g.len() == 2).map(|g| (g[0].as_bool().unwrap(), g[1].as_u64().unwrap() as usize));
+                let garble = op["garble"].as_array().filter(|g| g.len() >= 2).map(|g| (g[0].as_bool().unwrap(), g[1].as_u64().unwrap() as usize));
                 // garbling the final status report does not touch the proof: the device has decided by then
                 let garbled = garble.map(|(to_dev, n)| to_dev || n <= 2).unwrap_or(false);
-                let filter = Filter { cut: op["cut"].as_u64().map(|x| x as usize), garble,
+                let garble_at = op["garble"].as_array().filter(|g| g.len() >= 3).map(|g| (g[2].as_u64().unwrap() as usize, g.get(3).and_then(|m| m.as_u64()).unwrap_or(0x41) as u8));
+                let filter = Filter { cut: op["cut"].as_u64().map(|x| x as usize), garble, garble_at,
                                       hold: op["hold"].as_array().map(|g| (g[0].as_bool().unwrap(), g[1].as_u64().unwrap() as usize, g[2].as_u64().unwrap())), active: true,
                                       locked: op["locked"].as_bool().unwrap_or(false), bad_proof: !pass_ok || garbled, ..Default::default() };
                 let is_pase = op["op"] == "Pase";
                 let start = json!({"ev": "Start", "i": i, "tag": tagc, "kind": if is_pase { "pase" } else { "case" }, "pass_ok": pass_ok, "cut": op["cut"], "garbled": garbled,
+                                   "g_dir": garble.map(|g| if g.0 { "ini" } else { "dev" }).unwrap_or("none"), "g_nth": garble.map(|g| g.1).unwrap_or(0),
+                                   "peer_ok": op["peer"].as_u64().map(|p| p == dev_node_for(i)).unwrap_or(true), "member": !((i == 2) && (sc.foreign2 || sc.wrong_ipk2)),
+                                   "fabric": if i == 3 && sc.second_fabric { 2 } else { 1 }, "held": !op["hold"].is_null(),
                                    "complete": op["cut"].is_null() && op["hold"].is_null() && !op["locked"].as_bool().unwrap_or(false)});
-                mail[i - 1].borrow_mut().push_back(if is_pase { Cmd::Pase { pass: if pass_ok { PASSCODE } else { 11223344 }, tag: tagc, filter, start } } else { Cmd::Case { peer: op["peer"].as_u64().unwrap_or(DEV_NODE), tag: tagc, filter, start } });
+                mail[i - 1].borrow_mut().push_back(if is_pase { Cmd::Pase { pass: if pass_ok { PASSCODE } else { 11223344 }, tag: tagc, filter, start } } else { Cmd::Case { peer: op["peer"].as_u64().unwrap_or(dev_node_for(i)), tag: tagc, filter, start } });
                 running[i - 1].set(true);
                 if let Some(w) = mail_wakers[i - 1].borrow_mut().take() {
                     w.wake();
@@ -652,6 +703,18 @@ pub fn run_scenario(sc: &Scenario<'_>, tr: &mut Trace) -> End {
                  "cancelled": n_cancelled.get(), "window_open": snap.pase.window_open, "t": sim::now_ms()}));
     drop(held);
     end
+}
+
+/// Flip a byte of the protocol payload of an unsecured datagram (`payload_len` bytes at its end).
+fn flip(data: &mut [u8], payload_len: usize, at: Option<(usize, u8)>) {
+    let k = data.len();
+    match at {
+        Some((pos, mask)) if payload_len > 0 => {
+            let p = k - payload_len + pos.min(payload_len - 1);
+            data[p] ^= mask;
+        }
+        _ => data[k - 3] ^= 0x41,
+    }
 }
 
 fn left_count(left: &[Value], mode: &str) -> usize {
